@@ -943,7 +943,9 @@ def gen_linalg(rng, cx=False):
         if r >= 2:
             axes += [(0, 1), (1, 0), (-1, -2), (-2, -1)]
         if r >= 3:
-            axes += [(0, 2), (1, 2), (2, 0)]
+            axes += [(0, 2), (1, 2), (2, 0), (0, -1), (1, -1), (-2, 0), (-1, 0), (-1, 1)]
+        elif r == 2:
+            axes += [(0, -1), (-1, 0)]
         for o in ords:
             for ax in axes:
                 for kd in ("__default__", True):
